@@ -109,6 +109,16 @@ def translate_fit_h():
     if a < 0 or b < 0 or b < a:
         raise Unparsed("sanity block markers not found in fit.h")
     block = re.sub(r"\s+", "", strip_strings(strip_comments(src[a:b])))
+    # The block ends with the guard on the TARGET object ("splinetable already contains data": fit refuses a populated
+    # table, FitArgsModel.fit_step) and opens the try block whose handler empties the table again after a failure past
+    # this point (fit_step: a solver failure leaves the table EMPTY). Both are required: the model is written for them.
+    tail = 'if(ndim!=0)throwstd::runtime_error("");try{'
+    if not block.endswith(tail):
+        raise Unparsed("the sanity block does not end with the populated-target guard followed by `try{`")
+    block = block[: -len(tail)]
+    rest = re.sub(r"\s+", "", strip_strings(strip_comments(src[b:])))
+    if 'if(result!=0)throwstd::runtime_error("");}catch(...){clear();throw;}' not in rest:
+        raise Unparsed("fit() does not end with `if(result!=0) throw ...; }catch(...){ clear(); throw; }`")
     items = []
     for st in parse_stmts(block, False):
         if st[0] == "if":
